@@ -867,6 +867,10 @@ class OverlayStore(Store):
             self.removed.remove(key)
         except KeyError:
             pass
+        if not self.overlay.contains(key) and self.fallback.contains(key):
+            self.overlay.store(
+                key, self.fallback.get_bytes(key), self.fallback.get_metadata(key)
+            )
         self.overlay.store_metadata(key, metadata)
         self.on_metadata_changed(key)
 
